@@ -1420,7 +1420,77 @@ def _d5(ctx):
         ck.expect(good, 'C20-D5b', pe.qual, 'flag %r := True when self._robots and robots_cannot_follow(element), for every element' % flag_key,
                   'the no-follow flag is not raised for every page whose <meta name=robots> says nofollow: %s' % '; '.join(why), pe.loc(iff))
 
-    # ---- (b) removal in scrape
+    # ---- (b'') the verdict covers the page, not one scraper: several scrapers may take the same document (a page without a literal
+    #      `<html` that contains the word "var" is JavaScript to the JavaScript scraper), only the HTML scraper reads <meta>.  The flag
+    #      must leave HTMLScraper.scrape with the result, and the code that queues the links of all results must drop `linked` ones under it
+    fk_ = flag_key if flag_key is not None else 'robots_no_follow'
+    pub = []
+    pub_keys = set()
+    for st in walk_no_nested(sc.node):
+        if isinstance(st, ast.Assign) and len(st.targets) == 1 and isinstance(st.targets[0], ast.Subscript) and isinstance(st.targets[0].slice, ast.Constant) \
+                and isinstance(st.targets[0].slice.value, str) and 'follow' in st.targets[0].slice.value:
+            v = st.value
+            if isinstance(v, ast.Call) and isinstance(v.func, ast.Name) and v.func.id == 'bool' and len(v.args) == 1:
+                v = v.args[0]
+            # the value is the flag the element loop raised: <mapping>.get(<flag key>) / <mapping>[<flag key>]
+            isflag = (isinstance(v, ast.Call) and U.attr_name(v) == 'get' and v.args and isinstance(v.args[0], ast.Constant) and v.args[0].value == fk_) \
+                or (isinstance(v, ast.Subscript) and isinstance(v.slice, ast.Constant) and v.slice.value == fk_)
+            if isflag:
+                pub.append(st)
+                pub_keys.add(st.targets[0].slice.value)
+    consumer_ok = bool(pub)
+    ck.expect(bool(pub), 'C20-D5b', sc.qual, 'the no-follow flag is published in the ScrapeResult',
+              'HTMLScraper.scrape keeps the no-follow verdict to itself: the links another scraper finds in the same document (the JavaScript '
+              'scraper accepts any text containing "var" or "function" and no literal "<html") are queued and followed', sc.loc())
+    sd = repo.func('wpull.processor.rule:ProcessingRule.scrape_document')
+    ps = repo.func('wpull.processor.rule:ProcessingRule._process_scrape_info')
+    # the consumer reads the key that was published, hands the verdict to the link loop, and the loop skips `linked` contexts under it
+    # before anything is queued
+    reads = [x for x in ast.walk(sd.node) if isinstance(x, ast.Call) and U.attr_name(x) == 'get' and x.args and isinstance(x.args[0], ast.Constant)
+             and x.args[0].value in pub_keys]
+    sdefs_ = U.local_defs(sd.node)
+    verdict_names = {n for n, ds in sdefs_.items() for v, k_, st_ in ds if v is not None and any(r is y for r in reads for y in ast.walk(v))}
+    handed = []
+    for c_ in U.calls(sd.node):
+        if U.attr_name(c_) == '_process_scrape_info':
+            for k_ in c_.keywords:
+                if isinstance(k_.value, ast.Name) and k_.value.id in verdict_names and k_.arg in ps.params:
+                    handed.append(k_.arg)
+            for i_, a_ in enumerate(c_.args):
+                if isinstance(a_, ast.Name) and a_.id in verdict_names and i_ + 1 < len(ps.params):
+                    handed.append(ps.params[i_ + 1])
+    skips = []
+    for lp_ in [x for x in walk_no_nested(ps.node) if isinstance(x, ast.For)]:
+        adds = [c_ for c_ in U.calls(lp_) if U.attr_name(c_) == 'add_child_url']
+        for i in [x for x in lp_.body if isinstance(x, ast.If)]:
+            names = {x.id for x in ast.walk(i.test) if isinstance(x, ast.Name)}
+            if adds and names & set(handed) and any(isinstance(x, ast.Attribute) and x.attr == 'linked' for x in ast.walk(i.test)) \
+                    and isinstance(i.test, ast.BoolOp) and isinstance(i.test.op, ast.And) and len(i.test.values) == 2 \
+                    and not any(isinstance(x, ast.UnaryOp) for x in ast.walk(i.test)) \
+                    and i.body and isinstance(i.body[-1], ast.Continue) and not i.orelse and i.lineno < min(c_.lineno for c_ in adds):
+                skips.append(i)
+    consumer_ok = consumer_ok and bool(reads) and bool(skips)
+    ck.expect(bool(reads) and bool(skips), 'C20-D5b', sd.qual, 'links of every scraper\'s result are dropped when the page said nofollow',
+              'scrape_document queues the linked URLs of all scrape results without asking whether the page declared nofollow', sd.loc())
+    # ---- (b) removal in scrape: when the consumer drops the linked URLs of every result under the published flag (b''), a removal inside
+    #      the scraper is a second line of defence; what it lacks is then reported as a remark, not as a violation of the property
+    class _Soft:
+        def __init__(self, inner):
+            self._i = inner
+
+        def __getattr__(self, n):
+            return getattr(self._i, n)
+
+        def expect(self, ok, rule, where, construct, msg='', loc=None, **kw):
+            if ok or 'still honoured' in construct:          # the published flag is computed from it: stays a hard requirement
+                return self._i.expect(ok, rule, where, construct, msg, loc, **kw)
+            self._i.remark('%s %s: %s - %s (not a violation: ProcessingRule drops the linked URLs of a nofollow page)' % (rule, where, construct, msg))
+
+        def bad(self, rule, where, construct, msg='', loc=None, **kw):
+            self._i.remark('%s %s: %s - %s (not a violation: ProcessingRule drops the linked URLs of a nofollow page)' % (rule, where, construct, msg))
+    hard_ck = ck
+    if consumer_ok:
+        ck = _Soft(ck)
     sdefs = U.local_defs(sc.node)
     cfg = ctx.cfg(sc)
     srs = [c for c in U.calls(sc.node) if (dotted(c.func) or '').split('.')[-1] == 'ScrapeResult']
@@ -1512,6 +1582,7 @@ def _d5(ctx):
         ck.bad('C20-D5b', sc.qual, 'if %s.get(%r): <remove the linked contexts>' % (M, fk),
                'under the no-follow flag no bulk removal (difference_update, -=, filtered rebuild) of the linked contexts was found', sc.loc(ifs[0]))
 
+    ck = hard_ck
     # ---- (c') the option itself: the only place that turns args.robots off after parsing does so exactly when the crawl is not
     #      recursive (Wget: robots apply to recursive retrieval); the depth limit has nothing to do with it
     pp = repo.func('wpull.application.options:AppArgumentParser._post_parse_args')
